@@ -96,12 +96,25 @@ def _start_ens(c):
             out.append((nm, Q(cl.vars, (lambda body: (lambda *a: z3.Implies(rt_ <= 0, body(*a))))(cl.body))))
         else:
             out.append((nm, z3.Implies(rt_ <= 0, cl)))
+    # the task table returned: exactly one row per task of the finished map of the state returned in
+    from pyvc.state import TupleV
+    rv = getattr(c.result, '_v', None)
+    if isinstance(rv, TupleV) and len(rv.items) == 2:
+        out.append(('C04-the-task-table-returned-has-one-row-per-task-of-the-finished-map',
+                    DF_ROWS(c.result[1].t) == CV(c.n.self.cluster).fin.nk))
     return out
 
 
-REG.contract('Simulation._generate_final_task_data', world=SIMW, assumed=True, result='any',
-             note="ASSUMED / NOT COVERED: builds the task table with pandas from Cluster.finished_task_time_data (nested dict -> DataFrame); "
-                  "the 'one row per executed task' clause of C04 is not decided")
+DF_COLS = z3.Function('df_cols', I, I)
+REG.contract('Simulation._generate_final_task_data', world=SIMW, result='dframe',
+             requires=lambda c: [('assume:task-ids-are-unique', Q([('t', I), ('u', I)], lambda t, u: z3.Implies(
+                 z3.And(CV(c.o.self.cluster).fin.has(t), CV(c.o.self.cluster).fin.has(u), t != u),
+                 z3.Select(c.o.heap('Task', 'id'), t) != z3.Select(c.o.heap('Task', 'id'), u))))],
+             ensures=lambda c: [('C04-the-task-table-has-exactly-one-row-per-task-of-the-finished-map',
+                                 DF_ROWS(c.result.t) == CV(c.o.self.cluster).fin.nk)],
+             props=['C04', 'C11'],
+             note="the task table: Cluster.finished_task_time_data (one column per task, proved) transposed and decorated; pandas "
+                  "(.T, len, column assignment, infer_objects) is an assumed dependency contract")
 REG.contract('Simulation.start', world=SIMW, params={'runtime': 'num'},
              ensures=_start_ens,
              raises={'RuntimeError': dict(when=lambda c: c.o.self.running.t),
